@@ -22,7 +22,7 @@ def pep_shaped(vp):
     """v? PART(.PART)* then optionally [sep?(TAG|PYTAG)[NUM]?] — the README's PEP 440-compatible shapes"""
     return re.match(r"^v?(YYYY|YY|0Y|MM|0M|DD|0D|MAJOR|MINOR|PATCH|BUILD|BLD|INC0|INC1|Q|WW|0W|UU|0U|VV|0V|JJJ|00J|GGGG|GG|0G)"
                     r"(\.?(?:MM|0M|DD|0D|MAJOR|MINOR|PATCH|BUILD|BLD|INC0|INC1|Q|WW|0W|UU|0U|VV|0V|JJJ|00J))*"
-                    r"(\[?[-.]?(TAG|PYTAG)(\[?NUM\]?)?\]?)?$", vp) is not None
+                    r"(\[?-?(TAG|PYTAG)(\[?NUM\]?)?\]?)?$", vp) is not None   # ('.' before the tag is kept by the conversion: 2025.1.b0, an odd shape)
 
 
 def pep440_text(version_text):
@@ -193,11 +193,24 @@ def ref_regex_for(raw, vp):
     return re.compile(refimpl.ref_regex(refimpl.tokenize(src)))
 
 
+def order_lt(a, b):
+    """is b a strictly greater version than a?  `packaging` decides for PEP 440-valid strings (independent of bumpver); when one of
+    them is not PEP 440 the vendored comparison is used (its agreement with PEP 440 and the legacy rule is C16's subject)"""
+    try:
+        import packaging.version as pv
+        return pv.Version(a) < pv.Version(b)
+    except Exception:
+        from bumpver import version
+        return version.parse_version(a) < version.parse_version(b)
+
+
 def fixture_ok(pr):
     """fixture sanity (not a verification step) — the property's own restrictions: on every line each
     configured pattern has at most one occurrence, and occurrences of different patterns do not overlap
     (surrounding text matches no configured pattern).  Checked with an independent regex built from the
     reference tokenisation and the README part table."""
+    if not order_lt(pr["old"], pr["new"]):
+        return False            # e.g. a '+' separator starts a PEP 440 local version: the bump is then not an increase and update must refuse
     for f in pr["layout"]:
         if f.get("overlap"):
             continue            # deliberately overlapping patterns (see gen_project)
